@@ -9,9 +9,9 @@ EXTENDS Conn, Json, IOUtils
 
 Trace == ndJsonDeserialize(IOEnv.TRACE)
 RES == JsonDeserialize(IOEnv.RES)               \* query -> <<result at version 0, 1, ...>> as the real executor computes it
-I3 == {"1", "2", "3"}
+I3 == {"1", "2", "3", ""}
 Q5 == {"qa", "qb", "qf", "qbad", "qm"}
-ResFromFile == [q \in Q5 |-> [v \in 0..7 |-> RES[q][v + 1]]]
+ResFromFile == [q \in Q5 |-> [v \in 0..(Len(RES[q]) - 1) |-> RES[q][v + 1]]]
 MaxSubsEnv == CHOOSE n \in 1..9 : ToString(n) = IOEnv.MAXSUBS
 K == 3
 
@@ -27,7 +27,7 @@ TReset ==
   /\ ist' = [i \in Inst |-> "unused"] /\ iid' = [i \in Inst |-> "none"] /\ ikind' = [i \in Inst |-> "sub"]
   /\ iq' = [i \in Inst |-> "none"] /\ iinit' = [i \in Inst |-> TRUE] /\ iprev' = [i \in Inst |-> Nil]
   /\ iread' = [i \in Inst |-> -1] /\ ipend' = [i \in Inst |-> FALSE]
-  /\ data' = 0
+  /\ data' = Ev.v                                  \* scenarios start at different data versions
   /\ client' = [i \in Ids |-> Nothing] /\ gotFirst' = [i \in Ids |-> FALSE]
   /\ closeQ' = <<>> /\ logq' = <<>> /\ closed' = FALSE
   /\ ended' = [i \in Inst |-> 0] /\ unsubbed' = [i \in Ids |-> FALSE] /\ lateWrite' = FALSE
